@@ -152,5 +152,6 @@ func TestWorker(t *testing.T) {
 			kept++
 		}
 		enc.Encode(toJSON(s, seed, i, o, &ch.Rec, time.Since(start), keep, *fTrace))
+		w.Flush()
 	}
 }
